@@ -151,11 +151,25 @@ class ScriptedRunner(SimulationRunner):
         if w.inc_calls > w.step_cap:
             raise StepCap()
         kind, val, tot, dur = w.outcome(self.pname, v, c)
+        if w.mutating:
+            # a user program that modifies a list-valued parameter in place: every variation must start from the pristine
+            # value; what it finds may only contain ITS OWN earlier marks (never another variation's)
+            lst = current_parameters.parameters.get(w.mutating)
+            if isinstance(lst, list):
+                base = w.cfgs[self.pname]["fixed"][w.mutating]
+                seen = list(lst)
+                bad = seen[:len(base)] != list(base) or any((not isinstance(x, int)) or x < 100000 or (x - 100000) // 1000 != v for x in seen[len(base):])
+                if bad and w.param_leak is None:
+                    w.param_leak = "variation %d received %s=%r (pristine value %r; marks 100000+1000*v+j are left by variation v)" % (v, w.mutating, seen, base)
+                lst.append(100000 + 1000 * v + (w.inc_calls % 1000))
+                bump(w.probes, "user_iteration_mutated_a_parameter_value")
         w.clock.now += dur
         w.sim_time += dur
         w.var_elapsed[v] = w.var_elapsed.get(v, 0.0) + dur
         w.cur_v = v
         obs = canon_params(current_parameters.parameters)
+        if w.mutating:
+            obs.pop(w.mutating, None)
         if kind == "skip":
             w.trace.append((v, c, "skip", obs))
             w.log.add("run", self.pname, v, c, "skip")
@@ -203,7 +217,7 @@ class ScriptedRunner(SimulationRunner):
     def _on_simulate_current_params_start(self, current_params):
         self.w.cur_v = max(0, current_params.unpack_index)
         self.w.var_elapsed[max(0, current_params.unpack_index)] = 0.0
-        self.w.hook_log.append(("start", max(0, current_params.unpack_index), canon_params(current_params.parameters), None))
+        self.w.hook_log.append(("start", max(0, current_params.unpack_index), self.w.drop_mut(canon_params(current_params.parameters)), None))
         self.w.seams.seam("cb:params_start")
 
     def _on_simulate_current_params_finish(self, current_params, res):
@@ -211,7 +225,7 @@ class ScriptedRunner(SimulationRunner):
             ids = [int(i) for i in res["ids"][-1]._value_list]
         except Exception as e:       # noqa: BLE001
             ids = "unreadable: %s" % type(e).__name__
-        self.w.hook_log.append(("finish", max(0, current_params.unpack_index), canon_params(current_params.parameters), ids))
+        self.w.hook_log.append(("finish", max(0, current_params.unpack_index), self.w.drop_mut(canon_params(current_params.parameters)), ids))
         self.w.seams.seam("cb:params_finish")
 
 
@@ -257,11 +271,19 @@ class World:
         self.inc_index = 0
         self.inc_calls = 0
         self.step_cap = 10 ** 9
+        self.mutating = plan.get("mutating_user")     # name of a list-valued fixed parameter the user program modifies in place
+        self.param_leak = None
         self.record_last = record_last
         self.record_lines = record_lines
         self.recorded_kinds = None
         self.recorded_lines = None
         self.res = new_result()
+
+    def drop_mut(self, d):
+        if self.mutating:
+            d = dict(d)
+            d.pop(self.mutating, None)
+        return d
 
     # ---- script -----------------------------------------------------------
     def outcome(self, pname, v, c):
@@ -398,6 +420,8 @@ class World:
     # ---- reference runner ---------------------------------------------------
     def predict(self, pname, cfg, call, rep_max, durable):
         vs = variations_of(cfg)
+        if self.mutating:
+            vs = [{k: v for k, v in d.items() if k != self.mutating} for d in vs]
         rule = self.script.get("stop", {"kind": "always"})
         idxs = list(range(len(vs))) if call["kind"] == "all" else [call["i"]]
         calls = dict(self.calls)
@@ -530,7 +554,11 @@ class World:
             outcome = "crashed"
         except StepCap:
             outcome = "stepcap"
-        except (HarnessError, PlanTimeout):
+        except PlanTimeout:
+            if seams.fired:
+                raise
+            outcome = "hang"           # the code under test did not return although no fault was injected in this incarnation
+        except HarnessError:
             raise
         except BaseException as e:     # noqa: B902  (we classify, never swallow)
             outcome, exc = "exception", e
@@ -725,6 +753,10 @@ def execute(plan, record_last=False, record_lines=False):
             # ---- verdicts -------------------------------------------------
             real = w.trace
             exp = pred["trace"]
+            if rep["outcome"] == "hang":
+                add_violation(res, pid + ".liveness", k, "incarnation %d did not return within the per-plan wall limit although no fault was injected in it (durable state before: %s)" % (
+                    k, [(d["state"], d.get("rep")) for d in durable]), dict(sig_f, kind="wall"))
+                break
             if rep["outcome"] == "stepcap":
                 add_violation(res, pid + ".liveness", k, "incarnation %d made more than %d calls to the user iteration (model: %d)" % (
                     k, w.step_cap, len(exp)), sig_f)
@@ -737,6 +769,9 @@ def execute(plan, record_last=False, record_lines=False):
                               "incarnation %d: call #%d to the user iteration was %s, reference runner expects %s (durable state before: %s)" % (
                                   k, j, real[j] if j < n else None, exp[j] if j < len(exp) else "no further call",
                                   [(d["state"], d.get("rep")) for d in durable]), sig_f)
+                break
+            if w.param_leak is not None:
+                add_violation(res, pid + ".params", k, w.param_leak, sig_f)
                 break
             genuine_exc = rep["outcome"] == "exception" and not rep["fired"]
             if pred["refuse_at"] is not None:
@@ -813,7 +848,7 @@ def _check_completed(w, pid, res, k, inc, cfg, pname, pred, final_name, parts, s
                 i, {kk: d.get(kk) for kk in ("state", "rep", "ids", "why")}, per_v[i]["rep"], per_v[i]["ids"]), sig_f)
         return
     # the per-variation hooks received the right combination and, at the end, exactly that variation's merged results
-    vs_ = variations_of(cfg)
+    vs_ = [w.drop_mut(d) for d in variations_of(cfg)]
     want_hooks = []
     for v in pred["idxs"]:
         want_hooks.append(("start", v, canon_params(vs_[v]), None))
